@@ -345,7 +345,7 @@ func init() {
 		return out, nil
 	})
 
-	// concurrent {schema, docs, insts, k, m}: k goroutines x m rounds over one Resolved / one Schema tree (C13)
+	// concurrent {schema, docs, insts, validateDefaults, burst}: k goroutines x m rounds over one Resolved / one Schema tree (C13)
 	// Optional arg infer {type, opts, warm} (as for the op `infer`): the goroutines additionally call ForType on `type` and on every
 	// `warm` type with ONE *ForOptions value shared by all of them (one TypeSchemas map whose entry schemas were decoded from JSON);
 	// every result must marshal like the result of the same call made alone with an options object of its own, and the shared
@@ -357,6 +357,10 @@ func init() {
 		}
 		var inf struct {
 			Infer *inferArgs `json:"infer"`
+			// Burst (default 0 = off): before the ordinary rounds every goroutine makes that many back-to-back passes of Validate
+			// over all the instances on the shared Resolved (each verdict compared with the sequential one), all goroutines
+			// released together: the first calls on a fresh Resolved then overlap for longer than one pass does.
+			Burst int `json:"burst"`
 		}
 		if err := json.Unmarshal(args, &inf); err != nil {
 			return nil, err
@@ -475,6 +479,13 @@ func init() {
 					}
 				}()
 				<-start
+				for b := 0; b < inf.Burst; b++ {
+					for i, v := range insts {
+						if safeValidate(rs, v) != seq[i] {
+							note()
+						}
+					}
+				}
 				for round := 0; round < m; round++ {
 					if g%2 == 1 && round == 0 {
 						// half of the goroutines begin with ApplyDefaults, the others with Validate
